@@ -27,6 +27,7 @@ PY = "/venv/bin/python"
 ALWAYS_FAIL = {"test_ECDH_ES_with_EC_key", "test_import_p512_key", "test_ec_incorrect_curve", "test_ES512"}
 PROPS = ["C%02d" % i for i in range(1, 21)]
 SKIP_FILES = {"errors.py", "__init__.py"}
+OPS2 = "--ops2" in sys.argv
 
 CMP_SWAP = {ast.Lt: [ast.LtE, ast.Gt], ast.LtE: [ast.Lt], ast.Gt: [ast.GtE, ast.Lt], ast.GtE: [ast.Gt], ast.Eq: [ast.NotEq], ast.NotEq: [ast.Eq],
             ast.In: [ast.NotIn], ast.NotIn: [ast.In], ast.Is: [ast.IsNot], ast.IsNot: [ast.Is]}
@@ -76,7 +77,11 @@ def mutants_of(path):
         # annotations / type aliases / __all__ are not behaviour
         if isinstance(par, (ast.AnnAssign,)) and par.annotation is n:
             continue
-        if isinstance(n, ast.Compare) and len(n.ops) == 1:
+        if OPS2 and not isinstance(n, (ast.Call, ast.Name)):
+            continue
+        if OPS2:
+            pass
+        elif isinstance(n, ast.Compare) and len(n.ops) == 1:
             for alt in CMP_SWAP.get(type(n.ops[0]), []):
                 c = ast.Compare(left=n.left, ops=[alt()], comparators=n.comparators)
                 add(n, ast.unparse(c), f"cmp:{type(n.ops[0]).__name__}->{alt.__name__}")
@@ -109,6 +114,30 @@ def mutants_of(path):
                 add(n, ast.unparse(ast.BinOp(left=n.left, op=swap(), right=n.right)), f"arith:{type(n.op).__name__}")
         elif isinstance(n, ast.Return) and n.value is not None and isinstance(n.value, ast.Constant) and isinstance(n.value.value, bool):
             pass  # covered by const-bool
+        if isinstance(n, ast.Call) and OPS2:
+            # second operator family (run with --ops2): argument swaps, dropped keyword arguments
+            pos = [a for a in n.args if not isinstance(a, ast.Starred)]
+            if len(pos) >= 2 and len(pos) == len(n.args):
+                for k in range(len(pos) - 1):
+                    if ast.dump(pos[k]) != ast.dump(pos[k + 1]) and not (isinstance(pos[k], ast.Constant) and isinstance(pos[k + 1], ast.Constant)):
+                        c2 = ast.Call(func=n.func, args=pos[:k] + [pos[k + 1], pos[k]] + pos[k + 2:], keywords=n.keywords)
+                        add(n, ast.unparse(c2), f"arg-swap{k}")
+            for k, kw in enumerate(n.keywords):
+                if kw.arg is not None:
+                    c2 = ast.Call(func=n.func, args=n.args, keywords=n.keywords[:k] + n.keywords[k + 1:])
+                    add(n, ast.unparse(c2), f"drop-kwarg:{kw.arg}")
+        if isinstance(n, ast.Name) and OPS2 and isinstance(n.ctx, ast.Load) and not isinstance(par, (ast.Call,)) or \
+                (isinstance(n, ast.Name) and OPS2 and isinstance(n.ctx, ast.Load) and isinstance(par, ast.Call) and n in par.args):
+            # replace a parameter by another parameter of the same function
+            f = par
+            while f is not None and not isinstance(f, (ast.FunctionDef, ast.AsyncFunctionDef)):
+                f = parents.get(id(f))
+            if f is not None:
+                ps = [a.arg for a in f.args.args if a.arg not in ("self", "cls")]
+                if n.id in ps:
+                    for other in ps:
+                        if other != n.id:
+                            add(n, other, f"param-swap:{n.id}->{other}")
         if isinstance(n, ast.stmt) and isinstance(par, (ast.FunctionDef, ast.If, ast.For, ast.While, ast.Try, ast.With, ast.ExceptHandler)):
             body_owner = None
             for fld in ("body", "orelse", "finalbody"):
